@@ -134,6 +134,15 @@ def check(rep):
     rep.coverage["big_sample_histories"] = nbig
     if bf:
         return
+    # more than 4 GiB of media data (the only way a box the muxer writes takes the 64-bit header form): every call returns Ok and the output is a file
+    # — C13's sparse-stream pass, which writes 4 GiB + through the real muxer and reads it back
+    import check_c13
+    gf, ngiga = check_c13.big_payload(rep)
+    rep.coverage["over_4gib_histories"] = ngiga
+    for i, f in enumerate(gf[:3]):
+        rep.violation("over_4gib_%d" % i, dict(f, kind="input"))
+    if gf:
+        return
     rng = random.Random(rep.seed * 7919 + 17)
     hs = degenerate(rng, rep.tier) + [random_wild(rng) for _ in range(300 if rep.tier == "quick" else 5000)]
     muxcheck.run_property(rep, "C17", CONE, hs, [oracle_c17, then_valid],
